@@ -16,11 +16,12 @@ def run(ctx):
     part = os.path.join(d, "c04.part")
     n = routerfam.partition_by_name(raw, part)
     ctx.extra["question_partitions"] = n
-    routerfam.validate(ctx, part, only=["Inv_C04_", "Inv_C03_Header", "Inv_C07_StoreOwnKey", "Inv_C07_KeyEq", "Inv_C10_ExactQuestion", "Unconsumable"],
+    routerfam.validate(ctx, part, only=["Inv_C04_", "Inv_C03_Header", "Inv_C03_Decodable", "Inv_C07_StoreOwnKey", "Inv_C07_KeyEq", "Inv_C10_ExactQuestion", "Unconsumable"],
                        require_events=3000, timeout=3000)
     ctx.assumptions += [
-        "schedules of the real code are sampled (48-96 concurrent clients over all 8 listener kinds, 3 upstream transports, eviction pressure, refresh windows, a reply arriving after the 6 s response timeout); interleavings are enumerated only in the component models (Pipeline, Reuse, Router)",
+        "schedules of the real code are sampled (48-96 concurrent clients over all 8 listener kinds, 4 upstream transports (udp, tcp, tcp+pipeline, DoH over http), eviction pressure, refresh windows, a reply arriving after the 6 s response timeout); interleavings are enumerated only in the component models (Pipeline, Reuse, Router)",
         "the trace is projected per question name before validation (per-question invariants; keeps TLC's state small): an answer that belongs to another question shows up as a token unknown in this question's partition",
         "every upstream answer carries a unique token (A RDATA / SOA serial) that names the upstream, the question it was produced for and its serial",
     ]
+    ctx.assumptions.append("released buffers are poisoned under the verif tag: data left over from another query reaches the client as an undecodable or foreign response, so Inv_C03_Decodable is part of this verdict")
     return ctx.finish()
